@@ -253,8 +253,11 @@ pub fn check(c: &Case) -> Verdict {
             if l >= max_size {
                 // the limit does not bite on the dump files; the LevelDB files the tool rewrites may
                 // still exceed it, then the run fails at start-up - any outcome but a bad exit 0 is fine
-                if !out.ok() && !out.final_files().is_empty() {
-                    return Verdict::Fail(format!("RLIMIT_FSIZE={}: failed run left final-named files {:?}", l, out.final_files()));
+                // (a final-named file may exist then, but never a partial one)
+                if !out.ok() {
+                    if let Err(m) = finals_identical(&out) {
+                        return Verdict::Fail(format!("RLIMIT_FSIZE={} (not below any output file): {}", l, m));
+                    }
                 }
                 fired = false;
             } else {
